@@ -3,6 +3,13 @@
 import json, sys
 
 CLAIMED = {
+ "C19": dict(
+   category="exploration",
+   text="Structure-aware bounded-exhaustive enumeration at the seams where untrusted data enters, each case executed through the real code under recover(): (1) a managed object whose status takes every shape of the grammar {absent, null, \"\", \"x\", 0, 1.5, true, [], [s], {}, {k:s}} to depth 2, status.conditions lists whose condition fields each take every base shape (857 shapes quick, two-field deviations thorough), through a real ObjectSet pass (active and paused, with condition mappings and probes) and a real ObjectSetPhase pass; (2) the real ObjectTemplate controller with the same status shapes on its target object, 17 x 17 source item key/destination strings (empty, dots, unbalanced braces, indexes) and 11 template texts; (3) 93 package file sets through load -> validate -> render -> phase collection: object annotation values (condition-map, collision-protection, phase, CEL condition) incl. malformed ones, path shapes, manifest shapes, config values against an integer schema, malformed object documents. A panic is a violation identified by the first package-operator frame on its stack.",
+   design_ref="DESIGN.md §7 C19, §8",
+   note="Structure-level enumeration, not byte-level fuzzing; the OCI/tar importer and the kubectl-package CLI entry points are not driven (they share the package pipeline exercised in (3)).",
+   technique="bounded-exhaustive structure-aware input enumeration through the real code under recover()",
+   engine="world"),
  "C14": dict(
    category="model_checking",
    text="(a) Chunking: every phase of 0..3 (quick) / 0..4 (thorough) objects whose JSON sizes come from {L/3, L/2-1, L/2, L/2+1, L-1, L, L+1} around the real 1 MiB limit, for NoOp, EachObject and BinpackNextFit: in-order concatenation of the chunks equals the input, no empty chunk, no multi-object chunk above L. Slice names through the real Package controller + PackageDeployer: equal for equal content, different for different content; after a third party tampers with a slice (other content / other controller) a re-deploy of the same spec must not reference the occupied name, an untouched equal slice is reused. (b) Differential: scripted fair histories (rollout with objects becoming ready, then nothing / archive / delete / probe regression + pause + unpause / regression + archive) are run on an ObjectSet with inline objects and on the same ObjectSet with every phase in an ObjectSlice (2-3 phases, local and delegated); after every step the projected cluster state and ObjectSet status (lifecycle, finalizer, condition type/status/reason, controllerOf) must be equal. (c) Explicit-state BFS over Package updates v1{a,b} -> v2{a,c} -> v1 with the real Package, ObjectDeployment and ObjectSet controllers in any order: every ObjectSlice delete must hit a slice referenced neither by the deployment template nor by any existing ObjectSet at that instant.",
